@@ -24,7 +24,9 @@ PAYLOADS = {
 # valid XSD integer lexical forms that are not (all) valid Rust literals
 XSD_LEXICAL = {"plus-sign": "+7", "plus-zero-padded": "+007", "zero-padded": "007", "blank-padded": "  7\t", "minus-zero": "-0"}
 TEXT_POSITIONS = ["enumeration", "numeric-facet", "length-facet", "doc-simple", "doc-complex", "target-namespace",
-                  "imported-namespace", "address", "soap-action"]
+                  "imported-namespace", "address", "soap-action",
+                  # the same URI positions with a non-hierarchical URI (urn:...): URL normalisation percent-encodes much less there
+                  "target-namespace-opaque-uri", "imported-namespace-opaque-uri", "address-opaque-uri", "soap-action-opaque-uri"]
 MARK = "ZQXMARK"
 
 
@@ -132,6 +134,11 @@ def payload_matrix():
     for cls, payload in PAYLOADS.items():
         for pos in TEXT_POSITIONS:
             marked = f"{MARK}{payload}{MARK}"
+            if pos.endswith("-opaque-uri"):
+                ss = base_program(texts={pos[:-len("-opaque-uri")]: "urn:zv:c14:" + marked})
+                ss.features = {f"payload:{cls}", f"text-position:{pos}"}
+                out.append((cls, pos, "urn:zv:c14:" + marked, ss))
+                continue
             if pos in ("target-namespace", "imported-namespace"):
                 text = "http://zv.test/c14/" + marked
             elif pos in ("address", "soap-action"):
